@@ -240,7 +240,7 @@ def eReplyDiff (r : ERes) (t : ETransition) : Option String :=
 /-- model agreement for one resolution of the open choices; also returns the model's transition for the classifier -/
 def verdictEWith (t : ETransition) (mask order : Nat) (flip : List Bytes := []) (cmd : Option (List Bytes) := none) : String × Option (Except Halt (ERes × EState)) :=
   if !t.idxOk then ("DIFF index-field of a heap cell differs from its position", none) else
-  if callerDbE t != t.ctx.db then (s!"DIFF context-db dispatcher={t.ctx.db} connection-table={callerDbE t}", none) else
+  if callerDbE t != t.ctx.db && t.cmd.headD [] != b "@tick" then (s!"DIFF context-db dispatcher={t.ctx.db} connection-table={callerDbE t}", none) else
   match stepE t.ctx (envFor t mask order flip) t.pre (cmd.getD t.cmd) with
   | none => ("SKIP unmodelled-command", none)
   | some r =>
